@@ -677,11 +677,86 @@ Proof.
     change (set_fors (set_var (at_state st0 d i) v va) (rec :: fors (set_var (at_state st0 d i) v va)))
       with (at_state st0' (d_setv d v va) i).
     apply Hnext; auto.
-    intros d3 Hd3. apply Hloop; auto.
+    intros d3 Hd3. apply Hloop; auto; lia.
   - cbn [lhs_of]. rewrite pre_out_nil.
     change (set_pc (set_fors (set_var (at_state st0 d i) v va) (rec :: fors (set_var (at_state st0 d i) v va))) (S i))
       with (at_state st0' (d_setv d v va) (S i)).
-    eapply sim_ok_weaken; [|apply Hloop; auto]. lia.
+    eapply sim_ok_weaken; [|apply Hloop; auto; lia]. lia.
+Qed.
+
+
+(* ---- WHILE ---- *)
+Lemma sim_while g f cur pre post st0 d c body rest :
+  sim_at g -> (f < g)%nat ->
+  code = pre ++ cblock (TWhile c body :: rest) ++ post -> noend pre -> lastline pre 65535 = cur ->
+  ifs_ok_block (TWhile c body :: rest) = true -> targets_ok (TWhile c body :: rest) ->
+  onerr d = 0 ->
+  sim_ok code st0 (length pre + length (cblock (TWhile c body :: rest))) (S f)
+    (run code (S f) (at_state st0 d (length pre)))
+    (exec subs (S g) (S f) cur (TWhile c body :: rest) d).
+Proof.
+  intros IH Hfg Hc Hne Hl Hifs Htg Hd.
+  pose proof (sim_cont g _ rest pre post st0 cur IH Hc Hne Hl Hifs Htg) as Hcont.
+  set (P := (length pre + length (cblock (TWhile c body :: rest)))%nat) in *.
+  set (i := length pre) in *.
+  set (j := (S i + length (cblock body))%nat).
+  assert (Hlen : (i + length (cstmt (TWhile c body)) = S j)%nat).
+  { rewrite cstmt_while. simpl. rewrite app_length. simpl. unfold j. lia. }
+  rewrite Hlen, line_after_while in Hcont.
+  assert (Hc1 : code = pre ++ SWhile c :: (cblock body ++ SWend :: cblock rest ++ post)).
+  { rewrite Hc, cblock_cons, cstmt_while. simpl. rewrite <- !app_assoc. reflexivity. }
+  assert (Hc2 : code = (pre ++ [SWhile c]) ++ cblock body ++ (SWend :: cblock rest ++ post)).
+  { rewrite Hc1, <- app_assoc. reflexivity. }
+  assert (Hc3 : code = (pre ++ SWhile c :: cblock body) ++ SWend :: cblock rest ++ post).
+  { rewrite Hc1, <- app_assoc. reflexivity. }
+  assert (Hj : length (pre ++ SWhile c :: cblock body) = j).
+  { rewrite app_length. simpl. unfold j, i. lia. }
+  assert (Hnth_i : nth_error code i = Some (SWhile c)) by (rewrite Hc1; apply nth_error_app_at).
+  assert (Hnth_j : nth_error code j = Some SWend) by (rewrite Hc3, <- Hj; apply nth_error_app_at).
+  assert (Hline_i : line_of code i = cur).
+  { eapply line_here; eauto; intros; discriminate. }
+  assert (Hscan : scan_wend (skipn (S i) code) (S i) 0 = Some j).
+  { rewrite Hc1. unfold i. rewrite skipn_app_S. rewrite (proj2 scan_wend_block). reflexivity. }
+  assert (Hifs_b : ifs_ok_block body = true).
+  { simpl in Hifs. apply andb_true_iff in Hifs as [H _]. exact H. }
+  assert (Htg_b : targets_ok body).
+  { intros m Hm. apply Htg. simpl. apply in_or_app. left. exact Hm. }
+  set (st0' := set_whiles st0 ((i, j) :: whiles st0)).
+  set (cont := fun f' d' => exec subs g f' (line_after body cur) rest d').
+  set (bodyx := fun f1 d1 => exec subs g f1 cur body d1).
+  set (cond := fun d1 => rval d1 cur c).
+  (* the test of the condition, made by statement at_ (the WHILE or the WEND) *)
+  assert (Hwl : forall n f1 d1 at_, (f1 < n)%nat -> (f1 < g)%nat -> onerr d1 = 0 ->
+     sim_ok code st0 P (S f1)
+       (lhs_of code f1 (check_while code (at_state st0' d1 at_) at_ i))
+       (while_loop cond bodyx cont n f1 d1)).
+  { induction n as [|n IHn]; intros f1 d1 at_ Hn Hg Hd1; [lia|].
+    cbn [while_loop]. unfold check_while. rewrite Hnth_i. unfold cond at 1.
+    rewrite at_state_ds.
+    apply sim_with_val; auto. intros z.
+    destruct (z =? 0).
+    - (* the loop is left: continue after the WEND *)
+      cbn [lhs_of at_state whiles st0' set_whiles]. rewrite pre_out_nil.
+      change (set_pc (set_whiles _ (whiles st0)) (S j)) with (at_state st0 d1 (S j)).
+      eapply sim_ok_weaken; [|apply Hcont; auto]. lia.
+    - cbn [lhs_of]. rewrite pre_out_nil.
+      change (set_pc (at_state st0' d1 at_) (S i)) with (at_state st0' d1 (S i)).
+      eapply sim_ok_weaken with (fuel := f1); [lia|].
+      apply sim_ok_bseq with (st1 := st0') (pos1 := j).
+      + pose proof (IH f1 cur body d1 (pre ++ [SWhile c]) (SWend :: cblock rest ++ post) st0' Hg Hc2) as B.
+        rewrite app_length in B. simpl in B. replace (length pre + 1)%nat with (S i) in B by (unfold i; lia).
+        fold j in B. apply B; auto.
+        * apply noend_app; [exact Hne|]. intros [H|[]]; discriminate.
+        * rewrite lastline_app, Hl. reflexivity.
+      + intros f2 d2 Hf2 Hd2. destruct f2 as [|f3]; [apply sim_ok_stop|]. cbn [tick].
+        rewrite run_S, (step_at code _ SWend) by exact Hnth_j. cbv zeta. rewrite at_state_pc.
+        cbn [whiles at_state st0' set_whiles pop_to_wend]. rewrite Nat.eqb_refl.
+        change (set_whiles _ ((i, j) :: whiles st0)) with (at_state st0' d2 j).
+        apply IHn; auto; lia. }
+  rewrite run_S, (step_at code _ (SWhile c)) by exact Hnth_i.
+  rewrite exec_while. cbv zeta. rewrite at_state_pc. fold i. rewrite Hscan.
+  change (set_whiles (at_state st0 d i) ((i, j) :: whiles (at_state st0 d i))) with (at_state st0' d i).
+  apply Hwl; auto.
 Qed.
 
 End SimMain.
